@@ -69,6 +69,13 @@ def run(rep, work, tier, seed):
     rnd = random.Random(seed * 19 + 5)
     traces = gen_traces(rep, lambda: gen_trace(rnd, ["Cat"], records=False), 120 if tier == "quick" else 1500)
     leg_t_gen(rep, work, SPEC, f"trace_{tier}", traces, **trace_kw(["Cat"]))
+    # ... and one scope with hundreds of scopes nested under it over its lifetime
+    from props.metrics_common import wide_trace
+    nch = 258 if tier == "quick" else 400
+    from harness.legs import OPT
+    if not OPT:
+        leg_t_gen(rep, work, SPEC, f"trace_wide_{tier}", gen_traces(rep, lambda: wide_trace(nch), 1),
+                  **trace_kw(["Cat"], ntasks=1, n=nch + 1))
     rep.assumptions += [
         "a scope object that is made and never entered keeps the completion of the scope it is registered under pending "
         "for ever (modelled as such - it has not been left); scopes made ahead carry no completion callback",
